@@ -1,1 +1,17 @@
-fn main() {}
+mod avrox;
+mod c17;
+mod csvx;
+mod jsonp;
+mod jsonx;
+mod util;
+mod val;
+fn main() {
+    let ctx = vcore::Ctx::from_args();
+    match ctx.prop.as_str() {
+        "C17" => c17::run(&ctx),
+        other => {
+            eprintln!("MACHINERY: vk-text does not serve property {other:?}");
+            std::process::exit(2)
+        }
+    }
+}
